@@ -11,6 +11,9 @@ mod rng;
 mod runner;
 
 mod c06_layout;
+mod c11_pcicap;
+mod c12_pcibus;
+mod pciref;
 
 use proto::RunResult;
 use runner::{Ctx, Tier};
@@ -83,6 +86,8 @@ fn main() {
             // ---- property dispatch: one line per property module ----
             let (cases, rule, exhaustive, extra) = match prop.as_str() {
                 "C06" => c06_layout::run(&ctx),
+                "C11" => c11_pcicap::run(&ctx),
+                "C12" => c12_pcibus::run(&ctx),
                 _ => {
                     eprintln!("unknown property {}", prop);
                     std::process::exit(2)
